@@ -155,6 +155,9 @@ def _logo_canon(res):
     return out
 
 
+_PERSIST = {}
+
+
 def build():
     """The catalogue. pyrepseq is imported here (after the stand-in for pwseqdist is on the path)."""
     if STANDINS not in sys.path:
@@ -318,6 +321,16 @@ def build():
     add("subsample/f64_counts", "random", lambda: dict(c=np.array([3, 0, 2, 5])), lambda a: prs.subsample(a["c"], 4))
     add("powerlaw_mle_alpha/f64", "pure", lambda: dict(c=np.array([1.0, 2.0, 2.0, 5.0, 9.0])), lambda a: [prs.powerlaw_mle_alpha(a["c"], method="simple"), prs.powerlaw_mle_alpha(a["c"], cmin=2.0, method="continuitycorrection")])
     add("pcDelta/ndarray_bins", "pure", lambda: dict(s=np.array(SEQS, dtype=object), b=np.array([0.0, 1.0, 2.0, 5.0])), lambda a: prs.pcDelta(a["s"], bins=a["b"], pseudocount=0.5))
+    # ---- long-lived metric objects (created once per interpreter, before any call): a metric keeps ITS weights whatever other
+    #      metric objects are constructed later by other calls (pcDelta / hierarchical_clustering build default metrics internally)
+    if not _PERSIST:
+        _PERSIST.update(cdr3=tcr_metric.Cdr3Levenshtein(alpha_weight=5, beta_weight=2, insertion_weight=2), cdr=tcr_metric.CdrLevenshtein(cdr1_weight=3, cdr2_weight=2),
+                        wlev=WeightedLevenshtein(1, 2, 3), beta=tcr_metric.BetaCdr3Levenshtein(deletion_weight=4))
+    add("persistent/Cdr3Levenshtein_weighted", "pure", lambda: dict(a=_df(), b=_df().iloc[:2]), lambda a: _PERSIST["cdr3"].calc_cdist_matrix(a["a"], a["b"]))
+    add("persistent/CdrLevenshtein_weighted", "pure", lambda: dict(a=_df()), lambda a: _PERSIST["cdr"].calc_pdist_vector(a["a"]))
+    add("persistent/WeightedLevenshtein", "pure", lambda: dict(a=list(SEQS), b=list(SEQS2)), lambda a: _PERSIST["wlev"].calc_cdist_matrix(a["a"], a["b"]))
+    add("persistent/BetaCdr3Levenshtein_weighted", "pure", lambda: dict(a=_df()), lambda a: _PERSIST["beta"].calc_pdist_vector(a["a"]))
+    add("pcDelta/table_default_metric", "pure", lambda: dict(df=_df()), lambda a: prs.pcDelta(a["df"], bins=[0, 1, 2, 5, 30]))
     # ---- sentinels: values that exist only under the default IEEE / NumPy error handling (inf, nan); a call that leaves the
     #      process-wide floating-point error state or similar settings changed shows here
     add("sentinel/renyi2_all_distinct", "pure", lambda: dict(df=pd.DataFrame(dict(CDR3B=["CASSF", "CASSY", "CAWF"]))), lambda a: prs.renyi2_entropy(a["df"], "CDR3B"))
